@@ -26,7 +26,7 @@ def _types_of(interp: Any, v: Any) -> Any:
         return {"bool", "int"}
     if isinstance(v, int):
         return {"int"}
-    if isinstance(v, Fraction):
+    if isinstance(v, (Fraction, float)):
         return {"float"}
     if isinstance(v, SV):
         return {"int"} if v.kind == "int" else {"float"}
@@ -51,6 +51,8 @@ def _types_of(interp: Any, v: Any) -> Any:
         return s
     if isinstance(v, ObjVal):
         return {getattr(c, "name", str(c)) for c in v.cls.mro()} | {"object"}
+    if isinstance(v, Builtin) and getattr(v, "c_builtin", False):
+        return {"BuiltinFunctionType", "builtin_function_or_method", "Callable"}  # a C-implemented function
     if isinstance(v, (FuncVal, Builtin, BoundMethod)):
         return {"function", "FunctionType", "Callable"}
     if isinstance(v, (ClassVal, ExtClass)):
